@@ -8,6 +8,9 @@ for f in sorted(glob.glob(os.path.join(V, ".work", "seedsweep", "*.out"))):
     prop = sid.split("_")[0]
     txt = open(f).read()
     killed = re.findall(r"^KILLED-BY (C\d\d) (\S+)", txt, re.M)
+    # the recorded known finding fails on the unchanged tree too: it is not a detection of the seed
+    kf = re.findall(r"^KILLED-BY (C\d\d) (C10\.single_step\.I_notq) -- invariant not satisfied before loop", txt, re.M)
+    killed = [k for k in killed if k not in kf]
     undec = re.findall(r"^UNDECIDED (\S+) (.*)$", txt, re.M)
     mine = sorted(set(ob for p, ob in killed if p == prop))
     other = sorted(set("%s (reported under %s)" % (ob, p) for p, ob in killed if p != prop))
